@@ -1,4 +1,5 @@
 use super::search_table::SearchTableSet;
+use super::State;
 use super::StateIdx;
 use super::DFA;
 use crate::ast::RuleRhs;
@@ -51,15 +52,25 @@ impl CgCtx {
         user_error_type: Option<syn::Type>,
         rule_states: Map<String, StateIdx>,
     ) -> CgCtx {
+        // A state is inlined when it has one predecessor *and* that predecessor has one `match`
+        // arm leading to it. Transitions on characters, on ranges, and the "any" transition are
+        // generated as separate arms: inlining a state in more than one arm duplicates its code,
+        // and the code of a chain of such states grows exponentially with the length of the chain
+        // (e.g. `('a' | ['0'-'9']) ('a' | ['0'-'9']) ...`).
         let inlined_states: Vec<StateIdx> = dfa
             .states
             .iter()
             .enumerate()
             .filter_map(|(state_idx, state)| {
-                if state.predecessors.len() == 1 {
-                    Some(StateIdx(state_idx))
-                } else {
-                    None
+                let state_idx = StateIdx(state_idx);
+                let mut predecessors = state.predecessors.iter();
+                match (predecessors.next(), predecessors.next()) {
+                    (Some(predecessor), None)
+                        if n_arms_to(&dfa.states[predecessor.0], state_idx) == 1 =>
+                    {
+                        Some(state_idx)
+                    }
+                    _ => None,
                 }
             })
             .collect();
@@ -90,6 +101,11 @@ impl CgCtx {
 
     pub fn n_inlined_states(&self) -> usize {
         self.inlined_states.len()
+    }
+
+    /// Whether the state is inlined in its predecessor's code.
+    pub fn is_inlined(&self, state: StateIdx) -> bool {
+        self.inlined_states.binary_search(&state).is_ok()
     }
 
     #[cfg(lexgen_verif)]
@@ -138,4 +154,25 @@ impl CgCtx {
             self.lexer_name.span(),
         )
     }
+}
+
+/// Number of `match` arms in the code of `state` that lead to `target`: one for all character
+/// transitions, one for all range transitions, and one for the "any" transition.
+fn n_arms_to(
+    state: &State<Trans<SemanticActionIdx>, SemanticActionIdx>,
+    target: StateIdx,
+) -> usize {
+    let is_target = |trans: &Trans<SemanticActionIdx>| match trans {
+        Trans::Trans(next) => *next == target,
+        Trans::Accept(_) => false,
+    };
+
+    let char_arm = state.char_transitions.values().any(is_target);
+    let range_arm = state
+        .range_transitions
+        .iter()
+        .any(|range| is_target(&range.value));
+    let any_arm = state.any_transition.as_ref().map_or(false, is_target);
+
+    char_arm as usize + range_arm as usize + any_arm as usize
 }
